@@ -9,7 +9,8 @@ from .common import get_type
 META = {
     "rule": "v symbolic over all 32 bits with (v == 0 or bit 7 or bit 8 set), 16 partitions on bits 8-11; text form "
             "against the format rule written from the property statement with names from the pinned tables; the "
-            "attribute masks of each code partition the word; rows carry the classification.",
+            "attribute masks of each code partition the word; rows carry the classification; one partition renders "
+            "ten fixed codes after an arbitrary 32-bit word was rendered in the same path (no dependence on history).",
     "bounds": {"quick": "all 2^32 values that are TPM 2.0 codes (reserved high bits included)", "thorough": "same"},
     "outside": "TPM 1.2 codes (bits 7 and 8 both clear, non-zero): the property excludes them",
     "wall_budget_s": {"quick": 250, "thorough": 600},
@@ -122,8 +123,38 @@ def rc_rows(cfg, h, l):
     return [("bit-rows-show-the-field-bits", all(conds))]
 
 
+AFTER_TARGETS = (0, 0x081, 0x0C1, 0x881, 0x101, 0x901, 0x501, 0xFFF, 0x9A2, 0x000B0101)
+
+
+def rc_after(cfg, d):
+    """the text and rows of a code do not depend on which code (any 32-bit word, TPM 1.2 codes and bare layer
+    bytes included) was rendered just before in the same process"""
+    T = get_type(RC)
+    tabs = pinned_layout()["rc_tables"]
+    y = T(d)
+    try:
+        format(y)
+        str(y)
+        y.attributes()
+    except Exception:  # noqa: BLE001  (what the disturbing code renders as is not this check's business)
+        note("disturber-raised")
+    checks = []
+    texts, rows = [], []
+    for t in AFTER_TARGETS:
+        x = T(t)
+        want, cls = expected_text(t, tabs)
+        texts.append(all([format(x) == want, str(x) == want]))
+        masks = [a._value for a in x.attributes()]
+        rows.append((masks == []) if t == 0 else (sum(masks) == 0xFFFFFFFF))
+    checks.append(("text-form-after-another-code", all(texts)))
+    checks.append(("rows-after-another-code", all(rows)))
+    note("after")
+    return checks
+
+
 def partitions(tier, seed):
-    parts = []
+    parts = [{"id": "C18/after-any-code", "prop": "harness.c18:rc_after", "cfg": {},
+              "sym": [["d", "int", 0, 2 ** 32]], "budget_s": 200, "path_timeout_s": 60}]
     H = ["h", "int", 0, 2 ** 20]
     Z = ["h", "int", 0, 1]
     Lo = ["l", "int", 0, 256]
